@@ -311,6 +311,8 @@ def find_wrappers(crates):
 AMBIENT = [
     (re.compile(r'^std::time::SystemTime::now$'), 'wall clock'),
     (re.compile(r'^std::time::Instant::now$'), 'monotonic clock'),
+    (re.compile(r'^std::time::(SystemTime|Instant)::elapsed$'), 'clock (elapsed() reads the current time)'),
+    (re.compile(r'^chrono::.*::(now|today)$'), 'wall clock (chrono)'),
     (re.compile(r'^rand(_core|_chacha)?::'), 'rand'),
     (re.compile(r'^std::thread::current$'), 'thread identity'),
     (re.compile(r'^std::thread::(sleep|park|yield_now)'), 'thread timing'),
